@@ -184,15 +184,61 @@ def run(ctx):
                 want = "\n".join(_unesc(x) for x in body) + "\n"
             else:
                 want = mo
-            if "<error message>" in want:
-                # message texts are not modelled: the line is the library's message for the version the model selected
+            ok = rep == want   # the model includes the library's message texts (Model/Messages.lean)
+            if not ok and want.count("\n") == 1 and not want.startswith("CVSS"):
+                # the model says "one error line": only the WORDING of the message may differ (no property fixes it);
+                # what C17 demands is that the line is the library's own message for the selected version
                 iver, _ = selected(f)
-                ok = rep == expected_report(iver, v if v else (inter.ask(iver, "a" in f, a, no_colors=True)["vector"] or ""), "j" in f) \
-                    and not rep.startswith("CVSS" + iver[0] + "\n")
-            else:
-                ok = rep == want
+                vec_ = v if v else (inter.ask(iver, "a" in f, a, no_colors=True)["vector"] or "")
+                api = expected_report(iver, vec_, "j" in f)
+                if rep == api and not api.startswith("CVSS" + iver[0] + "\n"):
+                    ok = True
+                    ctx.aux("model-vs-code:message-text:cli", {"argv": argv_of(f, v)}, want[:200], rep[:200])
             if not ok:
                 ctx.disagree("model-vs-code:cli-report", {"argv": argv_of(f, v), "stdin": a}, want[:300], rep[:300])
+    # the COMPLETE stdout (interactive dialogue incl. colours + report + message texts): model vs code
+    if ctx.model_available:
+        sel2 = [i for i, (f, v, a) in enumerate(cases) if core.sendable(v or "") and not (v or "").startswith("-")
+                and all(core.sendable(x) and all(ord(c) < 128 for c in x) for x in a)][: ctx.n(1500, 30000)]
+        lines2 = ["LS\t%s\t%s" % (cases[i][0] or "-", "none" if cases[i][1] is None else enc(cases[i][1])) +
+                  "".join("\t" + enc(x) for x in cases[i][2]) for i in sel2]
+        out2 = core.run_driver(lines2)
+        for i, mo in zip(sel2, out2):
+            f, v, a = cases[i]
+            res = inter.run_main(argv_of(f, v), a)
+            want = "out\t" + core.esc(res["stdout"]) if not res["raised"] and res["exit"] == 0 else "crash"
+            ctx.count()
+            if mo != want:
+                ctx.aux("model-vs-code:cli-stdout", {"argv": argv_of(f, v), "stdin": a}, mo[-300:], want[-300:])
+    # message texts: the model of str(exception) vs the library, for constructors and from_rh_vector
+    if ctx.model_available:
+        probes_ = []
+        for _ in range(ctx.n(2500, 60000)):
+            ver = rng.choice("234")
+            s = core.rand_vector(ver, rng, p_absent=rng.choice([0.3, 0.8]))
+            for _ in range(rng.choice([1, 1, 2])):
+                s = core.edit(s, rng, ver)
+            if core.sendable(s):
+                probes_.append(("M", rng.choice([ver, ver, rng.choice("234")]), s))
+            if rng.random() < 0.3:
+                sc = rng.choice(["7.5", "0.0", "10.0", "x", "", "7.50", " 9.8", "1e1", "9_8", "nan"])
+                t_ = sc + "/" + s if rng.random() < 0.8 else s.replace("/", "|")
+                if core.sendable(t_) and all(ord(c) < 128 for c in t_.split("/", 1)[0]):
+                    probes_.append(("MR", ver, t_))
+        out = core.run_driver(["%s\t%s\t%s" % (k, v, enc(s)) for k, v, s in probes_])
+        im = core.impl()
+        for (k, v, s), mo in zip(probes_, out):
+            try:
+                (im.cls[v].from_rh_vector if k == "MR" else im.cls[v])(s)
+                want = "-"
+            except im.CVSSError as e:
+                want = "msg\t" + core.esc(str(e))
+            except Exception as e:  # noqa
+                want = "foreign:%s" % type(e).__name__
+            ctx.count()
+            if mo != want:
+                ctx.aux("model-vs-code:message-text:%s" % k, [v, s], mo[:300], want[:300])
+        ctx.extra["message_texts_compared"] = len(probes_)
     # thorough: a real subprocess for a sample
     if ctx.tier == "thorough":
         for flags, vec, ans in cases[:: max(1, len(cases) // 150)]:
